@@ -326,7 +326,7 @@ def partial(model_out, *derivative_variables):
     """
     du = model_out
     for inp in derivative_variables:
-        if du.grad_fn is None:
+        if not du.requires_grad:
             return torch.zeros_like(inp)
         du = _derivative(du, inp)
     return du
